@@ -277,7 +277,19 @@ def build(ctx, p):
         ctx.require(_cmp(got, ref), f"{m} changes under relabelling / insertion order")
 
 
-HASH_MEASURES = ["degree", "size", "duplicates", "maximal", "degree_matrix", "laplacian", "adjacency_matrix", "incidence_matrix",
+def _weighted_nl(H, nl, el):
+    W = [1.0, 5.0, 2.0, 0.5]
+    for j, e in enumerate(el):
+        H._edge_attr[e]["weight"] = W[j % 4]
+    out = xgi.normalized_hypergraph_laplacian(H, weighted=True, sparse=False, index=True)
+    return matrix(lambda _H: out, "n", "n")(H, nl, el)
+
+
+MEASURES["normalized_laplacian_weighted"] = _weighted_nl
+MEASURES["degree_mode"] = scalar(lambda H: H.nodes.degree.mode())
+MEASURES["size_mode"] = scalar(lambda H: H.edges.size.mode())
+MEASURES["degree_median_max_min"] = scalar(lambda H: (H.nodes.degree.median(), H.nodes.degree.max(), H.nodes.degree.min()))
+HASH_MEASURES = ["normalized_laplacian_weighted", "degree_mode", "size_mode", "degree", "size", "duplicates", "maximal", "degree_matrix", "laplacian", "adjacency_matrix", "incidence_matrix",
                  "intersection_profile", "edit_simpliciality", "connected_components", "clustering_coefficient", "net_degree", "net_size"]
 MEASURES["net_degree"] = node_dict(lambda H: H.degree())
 MEASURES["net_size"] = edge_dict(lambda H: H.size())
